@@ -161,3 +161,10 @@ func (p *Prog) PrivateClosure(fn *FuncInfo, depth int) []*FuncInfo {
 func (p *Prog) callSitesOf(fn, callee *FuncInfo) []CallSite {
 	return p.CallsTo([]*FuncInfo{fn}, callee.Obj)
 }
+
+// deadInView: the helper was expanded at every call site, so nothing refers to it any more in
+// the normalised program; its statements are judged where they were expanded.
+func (p *Prog) deadInView(fn *FuncInfo) bool {
+	p.buildCallers()
+	return p.expandedFns[fn.Key()] && len(p.callers[fn.Obj]) == 0
+}
